@@ -5,6 +5,7 @@ package main
 // of the character classes occurring in the pair).
 
 import (
+	"os"
 	"context"
 	"fmt"
 	"regexp"
@@ -24,6 +25,8 @@ type RegexObl struct {
 	Secs    float64
 	Solver  string
 	Note    string
+	Anchored bool   // compare the languages of whole-string matches: ^(?:pattern)$
+	Domain   string // optional: compare only on the strings of this (anchored) language, e.g. ^[^\n]*$ for single lines
 }
 
 const maxRune = 0x10FFFF
@@ -65,28 +68,90 @@ func foldOrbit(r rune) []rune {
 
 type alphabet struct {
 	starts []rune // sorted minterm start points; minterm i = [starts[i], starts[i+1])
+	// Minterms that belong to exactly the same character sets of the patterns are indistinguishable: they share one
+	// symbol (class). class[i] is the symbol of minterm i, rep[c] a representative rune of symbol c.
+	class []int
+	rep   []rune
 }
 
-func (a *alphabet) code(i int) string {
+// collectSets gathers the character sets that occur in a pattern (as lists of inclusive ranges).
+func collectSets(re *syntax.Regexp, sets *[][]rune) {
+	switch re.Op {
+	case syntax.OpLiteral:
+		for _, r := range re.Rune {
+			set := []rune{r, r}
+			if re.Flags&syntax.FoldCase != 0 {
+				for _, f := range foldOrbit(r) {
+					set = append(set, f, f)
+				}
+			}
+			*sets = append(*sets, set)
+		}
+	case syntax.OpCharClass:
+		*sets = append(*sets, append([]rune{}, re.Rune...))
+	case syntax.OpAnyCharNotNL:
+		*sets = append(*sets, []rune{'\n', '\n'})
+	}
+	for _, s := range re.Sub {
+		collectSets(s, sets)
+	}
+}
+
+func (a *alphabet) classify(sets [][]rune) {
+	ids := map[string]int{}
+	a.class = make([]int, len(a.starts))
+	for i, s := range a.starts {
+		sig := make([]byte, len(sets))
+		for k, set := range sets {
+			sig[k] = '0'
+			for j := 0; j+1 < len(set); j += 2 {
+				if set[j] <= s && s <= set[j+1] {
+					sig[k] = '1'
+					break
+				}
+			}
+		}
+		id, ok := ids[string(sig)]
+		if !ok {
+			id = len(a.rep)
+			ids[string(sig)] = id
+			a.rep = append(a.rep, s)
+		}
+		a.class[i] = id
+	}
+}
+
+func (a *alphabet) code(c int) string {
 	// representative characters are taken from a private range that needs no escaping
-	return fmt.Sprintf("\\u{%x}", 0x100+i)
+	return fmt.Sprintf("\\u{%x}", 0x100+c)
 }
 
+// mintermsIn returns the symbols of the minterms that lie inside [lo, hi].
 func (a *alphabet) mintermsIn(lo, hi rune) []int {
 	var out []int
+	seen := map[int]bool{}
 	for i, s := range a.starts {
 		end := rune(maxRune + 1)
 		if i+1 < len(a.starts) {
 			end = a.starts[i+1]
 		}
-		if s >= lo && end-1 <= hi {
-			out = append(out, i)
+		if s >= lo && end-1 <= hi && !seen[a.class[i]] {
+			seen[a.class[i]] = true
+			out = append(out, a.class[i])
 		}
 	}
 	return out
 }
 
-func (a *alphabet) union(ms []int) string {
+func (a *alphabet) union(ms0 []int) string {
+	var ms []int
+	seen := map[int]bool{}
+	for _, m := range ms0 {
+		if !seen[m] {
+			seen[m] = true
+			ms = append(ms, m)
+		}
+	}
 	if len(ms) == 0 {
 		return "re.none"
 	}
@@ -102,8 +167,8 @@ func (a *alphabet) union(ms []int) string {
 
 func (a *alphabet) all() string {
 	var ms []int
-	for i := range a.starts {
-		ms = append(ms, i)
+	for c := range a.rep {
+		ms = append(ms, c)
 	}
 	return a.union(ms)
 }
@@ -139,7 +204,7 @@ func (a *alphabet) translate(re *syntax.Regexp) (string, error) {
 		var ms []int
 		for i := range a.starts {
 			if a.starts[i] != '\n' {
-				ms = append(ms, i)
+				ms = append(ms, a.class[i])
 			}
 		}
 		return a.union(ms), nil
@@ -232,12 +297,16 @@ func (a *alphabet) fullLanguage(re *syntax.Regexp) (string, error) {
 func checkRegexEq(o *RegexObl, timeoutMs int) {
 	t0 := time.Now()
 	defer func() { o.Secs = time.Since(t0).Seconds() }()
-	rc, err := syntax.Parse(o.Code, syntax.Perl)
+	codePat, specPat := o.Code, o.Spec
+	if o.Anchored {
+		codePat, specPat = "^(?:"+codePat+")$", "^(?:"+specPat+")$"
+	}
+	rc, err := syntax.Parse(codePat, syntax.Perl)
 	if err != nil {
 		o.Status, o.Note = "failed", "pattern in source does not parse: "+err.Error()
 		return
 	}
-	rs, err := syntax.Parse(o.Spec, syntax.Perl)
+	rs, err := syntax.Parse(specPat, syntax.Perl)
 	if err != nil {
 		o.Status, o.Note = "unknown", "spec pattern does not parse: "+err.Error()
 		return
@@ -245,6 +314,15 @@ func checkRegexEq(o *RegexObl, timeoutMs int) {
 	cuts := map[rune]bool{0: true}
 	collectCuts(rc, cuts)
 	collectCuts(rs, cuts)
+	var rd *syntax.Regexp
+	if o.Domain != "" {
+		rd, err = syntax.Parse(o.Domain, syntax.Perl)
+		if err != nil {
+			o.Status, o.Note = "unknown", "domain pattern does not parse: "+err.Error()
+			return
+		}
+		collectCuts(rd, cuts)
+	}
 	al := &alphabet{}
 	for c := range cuts {
 		if c >= 0 && c <= maxRune {
@@ -252,6 +330,13 @@ func checkRegexEq(o *RegexObl, timeoutMs int) {
 		}
 	}
 	sort.Slice(al.starts, func(i, j int) bool { return al.starts[i] < al.starts[j] })
+	var sets [][]rune
+	collectSets(rc, &sets)
+	collectSets(rs, &sets)
+	if rd != nil {
+		collectSets(rd, &sets)
+	}
+	al.classify(sets)
 	lc, err := al.fullLanguage(rc)
 	if err != nil {
 		o.Status, o.Note = "unknown", err.Error()
@@ -262,7 +347,19 @@ func checkRegexEq(o *RegexObl, timeoutMs int) {
 		o.Status, o.Note = "unknown", err.Error()
 		return
 	}
-	script := fmt.Sprintf("(set-option :timeout %d)\n(declare-const s String)\n(assert (xor (str.in_re s %s) (str.in_re s %s)))\n(check-sat)\n(get-value (s))\n", timeoutMs, lc, ls)
+	dom := ""
+	if rd != nil {
+		ld, err := al.fullLanguage(rd)
+		if err != nil {
+			o.Status, o.Note = "unknown", err.Error()
+			return
+		}
+		dom = "(assert (str.in_re s " + ld + "))\n"
+	}
+	script := fmt.Sprintf("(set-option :timeout %d)\n(declare-const s String)\n%s(assert (xor (str.in_re s %s) (str.in_re s %s)))\n(check-sat)\n(get-value (s))\n", timeoutMs, dom, lc, ls)
+	if d := os.Getenv("GOVC_KEEP_REGEX"); d != "" {
+		os.WriteFile(d+"/"+sanitize(o.Name)+".smt2", []byte(script), 0644)
+	}
 	for _, sv := range []solverDef{{"z3-5.1.0", "z3-new", []string{"-in"}, true}, {"z3-4.8.12", "/usr/bin/z3", []string{"-in"}, true}} {
 		ctx, cancel := context.WithTimeout(context.Background(), time.Duration(timeoutMs+2000)*time.Millisecond)
 		out, _ := runSolver(ctx, sv.bin, sv.args, script)
@@ -277,8 +374,8 @@ func checkRegexEq(o *RegexObl, timeoutMs int) {
 			o.Status = "failed"
 			o.Witness = al.decodeWitness(out)
 			// replay on the real regexp engine
-			c1, e1 := regexp.Compile(o.Code)
-			c2, e2 := regexp.Compile(o.Spec)
+			c1, e1 := regexp.Compile(codePat)
+			c2, e2 := regexp.Compile(specPat)
 			if e1 == nil && e2 == nil {
 				m1, m2 := c1.MatchString(o.Witness), c2.MatchString(o.Witness)
 				o.Note = fmt.Sprintf("witness %q: source pattern matches=%v, specification matches=%v", o.Witness, m1, m2)
@@ -311,8 +408,8 @@ func (a *alphabet) decodeWitness(out string) string {
 			var code int
 			fmt.Sscanf(enc[3:k], "%x", &code)
 			idx := code - 0x100
-			if idx >= 0 && idx < len(a.starts) {
-				sb.WriteRune(a.starts[idx])
+			if idx >= 0 && idx < len(a.rep) {
+				sb.WriteRune(a.rep[idx])
 			}
 			enc = enc[k+1:]
 			continue
